@@ -94,7 +94,10 @@ def mesh_op(m, op):
         n = max(1, m.nelements - 1)
         return m.restrict(np.arange(n))
     if k == 'tagged':
-        return m.with_boundaries({'b': m.boundary_facets()[::2]}).with_subdomains({'s': np.arange(0, m.nelements, 2)})
+        # name and selection vary with the step, so a mesh that already carries tags gets other ones (its own must stay as they are)
+        q = op.get('picks') or [0]
+        nm, off = ['b', 'c'][int(q[0]) % 2], int(q[-1]) % 2
+        return m.with_boundaries({nm: m.boundary_facets()[off::2]}).with_subdomains({'s' + nm: np.arange(off, m.nelements, 2)})
     if k == 'oriented':
         return m.oriented()
     if k == 'removed_unused':
@@ -196,7 +199,7 @@ def apply(s, step, ctx):
     op = step['op']
     sig = dict(op=op)
     s.nrules += 1
-    mi = step.get('mesh', 0) % len(s.meshes)
+    mi = (len(s.meshes) - 1) if step.get('mesh') == 'last' else step.get('mesh', 0) % len(s.meshes)
     ent = s.meshes[mi]
     s.uses = getattr(s, 'uses', {})
     s.uses[mi] = s.uses.get(mi, 0) + 1
@@ -381,8 +384,15 @@ def apply(s, step, ctx):
             compare(ctx, 'mesh_operation', new, fresh, dict(sig, kind=k))
         else:
             compare(ctx, 'mesh_operation', [new.p, new.t], [fresh.p, fresh.t], dict(sig, kind=k))
-            if len(s.meshes) < 4:
-                s.meshes.append(dict(obj=new, recipe=ent['recipe'] + [o], kind=kind))
+            if mesh_digest(new) != mesh_digest(fresh) and not ctx.failures:
+                ctx.fail('mesh_operation', 'named sets of the result differ between long-lived and fresh operands', **dict(sig, kind=k))
+            # the same call once more on the same operand: the same answer (no generator or counter advancing behind the scenes)
+            again = attempt(lambda: mesh_op(m, o))
+            if not isinstance(again, Exception) and not ctx.failures:
+                compare(ctx, 'mesh_operation_repeated', [again.p, again.t], [new.p, new.t], dict(sig, kind=k))
+            if len(s.meshes) >= 4:
+                del s.meshes[2]               # the two initial meshes stay; derived ones rotate
+            s.meshes.append(dict(obj=new, recipe=ent['recipe'] + [o], kind=kind))
         after()
     elif op == 'finder':
         if kind == 'wedge' or type(m).__name__.endswith('2'):
@@ -462,7 +472,16 @@ class PoolMachine(HistoryMachine):
     def init_pool(self, data):
         k1 = data.draw(st.sampled_from(['line', 'tri', 'quad', 'tet', 'hex', 'tri', 'quad']))
         d1 = data.draw(gm.mesh(kinds=(k1,), max_cells=10, max_cells_3d=5, order2=True, curved=True, allow_holes=False, min_cells=2))
-        d2 = data.draw(gm.mesh(kinds=(k1,), max_cells=10, max_cells_3d=5, order2=False, allow_holes=False, min_cells=2))
+        if data.draw(st.booleans()):
+            # the structured default meshes everybody starts from (many equal edge lengths: ties in longest-edge rules)
+            import skfem
+            cls = gm.CLS1[k1]
+            m0 = getattr(skfem, cls)()
+            if data.draw(st.booleans()) and k1 in ('line', 'tri', 'quad'):
+                m0 = m0.refined()
+            d2 = dict(cls=cls, p=m0.p.tolist(), t=m0.t.tolist(), feat=[k1, 'default-constructor'])
+        else:
+            d2 = data.draw(gm.mesh(kinds=(k1,), max_cells=10, max_cells_3d=5, order2=False, allow_holes=False, min_cells=2))
         self.start(dict(meshes=[d1, d2]))
 
     @rule(mesh=INT, attr=INT)
@@ -510,6 +529,18 @@ class PoolMachine(HistoryMachine):
     @rule(mesh=INT, kind=INT, picks=st.lists(INT, min_size=1, max_size=4))
     def mesh_operation(self, mesh, kind, picks):
         self.do(dict(op='mesh_op', mesh=mesh, kind=kind, picks=picks))
+
+    # tag a mesh, derive a relative of the tagged mesh, tag the relative differently: every mesh keeps its own named sets
+    @rule(mesh=INT, picks=st.lists(INT, min_size=2, max_size=3), picks2=st.lists(INT, min_size=2, max_size=3), rel=st.sampled_from([2, 3, 6]))
+    def tag_relatives(self, mesh, picks, picks2, rel):
+        self.do(dict(op='mesh_op', mesh=mesh, kind=6, picks=picks))
+        self.do(dict(op='mesh_op', mesh='last', kind=rel, picks=picks))
+        self.do(dict(op='mesh_op', mesh='last', kind=6, picks=picks2))
+        self.do(dict(op='touch', mesh=2, attr=3))
+
+    @rule(mesh=INT, picks=st.lists(INT, min_size=1, max_size=3))
+    def adaptive(self, mesh, picks):
+        self.do(dict(op='mesh_op', mesh=mesh, kind=1, picks=picks))
 
     @rule(mesh=INT)
     def finder(self, mesh):
